@@ -24,7 +24,7 @@ PROP = 'C14'
 LEAN_MODULES = ['Femio.Props.C14']
 THEOREMS = ['C14_mean_of_nodes', 'C14_mean_of_nodes_unknown_id', 'C14_affine_at_centroid', 'C14_mean_row_stochastic',
             'C14_incidence_of_mesh', 'C14_constants', 'C14_bounds', 'C14_weights_prop_size', 'C14_effective_colsum', 'C14_effective_total']
-PARTIAL = ['order1_only=True / an explicit incidence= matrix (first-order nodes of tet2 only) is exercised by the oracle, not modelled',
+PARTIAL = ['order1_only=True / an explicit incidence= matrix: modelled for weight=False (e2nMean / e2nEffective over Femio.C13.incidenceOpt true, rows = order1Nodes; the C14 theorems are stated for an arbitrary Boolean incidence relation and cover it); with metric weights it is exercised by the oracle only',
            'convert_nodal2elemental without calc_average (plain gather / ravel) is covered by the gather lemma only']
 RULE = ('seeded meshes (tri, quad, tri+quad, tet, tet2, hex, prism, pyr, hex+prism+pyr; affine / jittered; voids; unreferenced '
         'nodes; ids dense / sparse / large / huge / prefix-like; storage ascending / descending / shuffled; type blocks '
@@ -417,6 +417,48 @@ def check_order1(m, rows, explicit=False):
     return out
 
 
+def tie_order1(ctx, m, rows, explicit, case):
+    """model tie for order1_only=True / an explicit first-order incidence: e2nMean / e2nEffective over
+    Femio.C13.incidenceOpt true (rows = order1Nodes), exact rationals"""
+    fd = K.to_fem(m)
+    x = as_array(rows)
+    width = len(rows[0])
+    for mode in ('mean', 'effective'):
+        try:
+            with np.errstate(all='ignore'):
+                if explicit:
+                    type(fd).calculate_incidence_matrix.cache_clear()
+                    inc = G.quiet(fd.calculate_incidence_matrix, order1_only=True)
+                    real = np.asarray(G.quiet(fd.convert_elemental2nodal, x, mode=mode, weight=False, incidence=inc), float)
+                else:
+                    real = np.asarray(G.quiet(fd.convert_elemental2nodal, x, mode=mode, order1_only=True, weight=False), float)
+        except Exception:
+            return      # the oracle (check_order1) reports exceptions
+        rep = ctx.driver.ask(f'c14.e2n1 {mode} {G.enc_mesh(m)} {enc_cols(rows, width)}')
+        if rep == 'ok unsupported':
+            ctx.count('model:order1-unsupported')
+            return
+        t = C.Toks(rep)
+        if t.tok() != 'ok':
+            raise RuntimeError('driver: ' + rep[:200])
+        ctx.count('tie:order1' + (':explicit-incidence' if explicit else ''))
+        sc = max([1.0] + [abs(float(v)) for row in rows for v in row])
+        n = t.nat()
+        what = f'convert_elemental2nodal mode={mode} ' + ('incidence=<first-order incidence>' if explicit else 'order1_only=True')
+        if n != len(real):
+            ctx.disagree(what + ': number of rows', case, len(real), n)
+            return
+        for k in range(n):
+            nid = t.nat()
+            vals = t.lst(lambda: t.rat() if t.nat() == 1 else None)
+            for w, v in enumerate(vals):
+                got = real[k, w] if real.ndim == 2 else real[k]
+                if v is None or not abs(float(v) - got) <= TOL * sc:
+                    ctx.disagree(what, case, {'node': nid, 'column': w, 'value': None if got != got else float(got)},
+                                 None if v is None else float(v))
+                    return
+
+
 # ------------------------------------------------------------------------------------------ run
 
 def e2n_block(ctx, rng, m, mj, k, shared, stream=None, wscale=1, tie=True, combos=None, incidence=None):
@@ -522,6 +564,9 @@ def run(ctx):
             ctx.count('order1:explicit-incidence')
             for sig, what, obs in check_order1(m, fld, explicit=True):
                 ctx.fail(sig, what, {'check': 'order1', 'explicit': True, 'mesh': mj, 'field': field_json(fld)}, obs)
+            if ctx.driver is not None:
+                for ex in (False, True):
+                    tie_order1(ctx, m, fld, ex, {'check': 'order1', 'explicit': ex, 'mesh': G.describe(m)})
     # ---- histories: convert a named field, overwrite it, convert again on the same object (drawn after the main loop so
     #      that its cases are unchanged for a given seed)
     hkinds = ['tet', 'hex', 'shell:tri', 'shell:quad', 'tet2', 'prism', 'pyr', 'tet', 'shell:mixed', 'hex']
